@@ -44,6 +44,9 @@ pub struct QCfg {
     /// narrow alphabet (answers report nothing, no initial peer satisfies the predicate, so the
     /// lookup only ends by exhaustion), explored deeper
     pub deep: bool,
+    /// pool worlds: a second lookup (two own peers, parallelism 1, answered at once with nothing)
+    /// shares the pool
+    pub companion: bool,
 }
 
 struct Universe {
@@ -103,6 +106,10 @@ fn xor_ids(a: &NodeId, b: &NodeId) -> [u8; 32] {
     o
 }
 
+fn companion_peers() -> Vec<NodeId> {
+    vec![NodeId::new(&[0xC1; 32]), NodeId::new(&[0xC2; 32])]
+}
+
 fn never_matches(_e: &Enr) -> bool {
     false
 }
@@ -142,6 +149,8 @@ struct QWorld {
     counters: BTreeMap<&'static str, u64>,
     /// the lookup reported its stalled mode before the poll being executed
     stalled_before_poll: bool,
+    /// the companion lookup: its id, the peers the pool reported for it, whether it was handed back
+    comp: Option<(v::QueryId, BTreeSet<[u8; 32]>, bool)>,
 }
 
 impl QWorld {
@@ -149,6 +158,7 @@ impl QWorld {
         let real = cfg.predicate || cfg.pool;
         let u = universe(cfg.n_peers, real);
         let tkey = Key::from(u.target);
+        let mut comp = None;
         let subj = if cfg.pool {
             let mut pool = v::QueryPool::new(QUERY_TIMEOUT);
             let id = if cfg.predicate {
@@ -158,6 +168,11 @@ impl QWorld {
                 let c = FindNodeQueryConfig { parallelism: cfg.parallelism, num_results: cfg.num_results, peer_timeout: PEER_TIMEOUT };
                 pool.add_findnode_query(c, Tgt(u.target), cfg.initial.iter().map(|p| Key::from(u.ids[*p as usize])))
             };
+            if cfg.companion {
+                let c = FindNodeQueryConfig { parallelism: 1, num_results: 16, peer_timeout: PEER_TIMEOUT };
+                let cid = pool.add_findnode_query(c, Tgt(NodeId::new(&[0xC0; 32])), companion_peers().into_iter().map(Key::from));
+                comp = Some((cid, BTreeSet::new(), false));
+            }
             Subject::Pool(pool, id)
         } else if cfg.predicate {
             let peers: Vec<PredicateKey<NodeId>> = cfg.initial.iter().map(|p| PredicateKey { key: Key::from(u.ids[*p as usize]), predicate_match: u.pred[*p as usize] && !cfg.deep }).collect();
@@ -169,7 +184,7 @@ impl QWorld {
         // constructor keeps the first `num_results` of the given candidates
         let known: BTreeSet<P> = cfg.initial.iter().take(cfg.num_results).copied().collect();
         let known_upper = known.clone();
-        QWorld { cfg: cfg.clone(), u, subj: Some(subj), t0: Instant::now(), issued: BTreeMap::new(), answered: BTreeSet::new(), succeeded: BTreeSet::new(), effective_successes: 0, known, known_upper, finished: None, timed_out: false, started: None, counters: BTreeMap::new(), stalled_before_poll: false }
+        QWorld { cfg: cfg.clone(), u, subj: Some(subj), t0: Instant::now(), issued: BTreeMap::new(), answered: BTreeSet::new(), succeeded: BTreeSet::new(), effective_successes: 0, known, known_upper, finished: None, timed_out: false, started: None, counters: BTreeMap::new(), stalled_before_poll: false, comp }
     }
 
     fn idx(&self, id: &NodeId) -> P {
@@ -325,22 +340,83 @@ impl QWorld {
                     }
                     Subject::Pool(mut pool, id) => {
                         self.started = self.started.or(Some(now));
-                        let (s, r, to, gone) = match pool.poll() {
-                            v::QueryPoolState::Idle => (QueryState::Finished, None, false, true),
-                            v::QueryPoolState::Waiting(None) => (QueryState::Waiting(None), None, false, false),
-                            v::QueryPoolState::Waiting(Some((q, peer))) => {
-                                if q.id() != id {
-                                    return Err(self.violation("harness", "pool-id", "unexpected query id".into()));
-                                }
-                                (QueryState::Waiting(Some(peer)), None, false, false)
+                        let comp_id = self.comp.as_ref().map(|c| c.0);
+                        // events of the companion lookup are served on the spot (its peers answer at once
+                        // with nothing); the poll that matters is the first that concerns the main lookup
+                        let mut comp_violation: Option<String> = None;
+                        let mut guard = 0;
+                        let (s, r, to, gone) = loop {
+                            guard += 1;
+                            if guard > 16 {
+                                break (QueryState::Waiting(None), None, false, false);
                             }
-                            v::QueryPoolState::Finished(q) => (QueryState::Finished, Some(q.into_result().closest_peers.collect::<Vec<_>>()), false, false),
-                            v::QueryPoolState::Timeout(q) => (QueryState::Finished, Some(q.into_result().closest_peers.collect::<Vec<_>>()), true, false),
+                            match pool.poll() {
+                                v::QueryPoolState::Waiting(Some((q, peer))) if Some(q.id()) == comp_id => {
+                                    if let Some(c) = self.comp.as_mut() {
+                                        c.1.insert(peer.raw());
+                                    }
+                                    q.on_success(&peer, &[]);
+                                    *self.counters.entry("companion_requests").or_insert(0) += 1;
+                                }
+                                v::QueryPoolState::Finished(q) | v::QueryPoolState::Timeout(q) if Some(q.id()) == comp_id => {
+                                    if let Some(c) = self.comp.as_mut() {
+                                        c.2 = true;
+                                        for p in companion_peers() {
+                                            if !c.1.contains(&p.raw()) {
+                                                comp_violation = Some(format!("the companion lookup ended without its candidate {} ever being handed out by the pool", util::short(&p)));
+                                            }
+                                        }
+                                    }
+                                }
+                                v::QueryPoolState::Idle => break (QueryState::Finished, None, false, true),
+                                v::QueryPoolState::Waiting(None) => break (QueryState::Waiting(None), None, false, false),
+                                v::QueryPoolState::Waiting(Some((q, peer))) => {
+                                    if q.id() != id {
+                                        return Err(self.violation("harness", "pool-id", "unexpected query id".into()));
+                                    }
+                                    break (QueryState::Waiting(Some(peer)), None, false, false);
+                                }
+                                v::QueryPoolState::Finished(q) => break (QueryState::Finished, Some(q.into_result().closest_peers.collect::<Vec<_>>()), false, false),
+                                v::QueryPoolState::Timeout(q) => break (QueryState::Finished, Some(q.into_result().closest_peers.collect::<Vec<_>>()), true, false),
+                            }
                         };
+                        if let Some(d) = comp_violation {
+                            return Err(self.violation("if fewer than k nodes are returned every learned candidate was contacted", "c10:incomplete", d));
+                        }
                         if gone {
                             return Err(self.violation("a lookup hands its result to the caller exactly once", "pool-lost", "pool is idle but the query was never returned".into()));
                         }
                         if r.is_some() {
+                            // a companion still in the pool is driven to its end (a candidate the pool never
+                            // handed out goes unresponsive after the peer timeout)
+                            let mut guard = 0;
+                            while self.comp.as_ref().map(|c| !c.2).unwrap_or(false) {
+                                guard += 1;
+                                if guard > 12 {
+                                    return Err(self.violation("every lookup terminates", "c09:companion-no-termination", "the companion lookup did not end".into()));
+                                }
+                                match pool.poll() {
+                                    v::QueryPoolState::Waiting(Some((q, peer))) => {
+                                        if let Some(c) = self.comp.as_mut() {
+                                            c.1.insert(peer.raw());
+                                        }
+                                        q.on_success(&peer, &[]);
+                                    }
+                                    v::QueryPoolState::Finished(_) | v::QueryPoolState::Timeout(_) => {
+                                        let c = self.comp.as_mut().unwrap();
+                                        c.2 = true;
+                                        for p in companion_peers() {
+                                            if !c.1.contains(&p.raw()) {
+                                                return Err(self.violation("if fewer than k nodes are returned every learned candidate was contacted", "c10:incomplete", format!("the companion lookup ended without its candidate {} ever being handed out by the pool", util::short(&p))));
+                                            }
+                                        }
+                                    }
+                                    v::QueryPoolState::Idle => {
+                                        return Err(self.violation("a lookup hands its result to the caller exactly once", "pool-lost", "pool is idle but the companion lookup was never returned".into()));
+                                    }
+                                    v::QueryPoolState::Waiting(None) => clock::advance(PEER_TIMEOUT),
+                                }
+                            }
                             // exactly once: it must be gone from the pool now
                             if pool.get_mut(id).is_some() || pool.iter().count() != 0 {
                                 return Err(self.violation("a lookup hands its result to the caller exactly once", "pool-kept", "finished query still in the pool".into()));
@@ -571,7 +647,7 @@ fn run_query(cfg: &QCfg, hist: &[QEv]) -> Outcome<QEv> {
 }
 
 pub fn debug_one() {
-    let cfg = QCfg { predicate: true, pool: false, n_peers: 7, initial: vec![6], parallelism: 3, num_results: 1, max_report: 0, half_steps: true, deep: true };
+    let cfg = QCfg { predicate: true, pool: false, n_peers: 7, initial: vec![6], parallelism: 3, num_results: 1, max_report: 0, half_steps: true, deep: true, companion: false };
     let h = vec![QEv::Poll, QEv::Succ(6, vec![6, 5, 4, 3, 2, 1, 0]), QEv::Poll, QEv::Poll, QEv::Poll, QEv::Succ(0, vec![]), QEv::HalfPeer, QEv::Poll, QEv::Succ(1, vec![]), QEv::HalfPeer, QEv::Poll, QEv::Succ(2, vec![]), QEv::HalfPeer, QEv::Poll, QEv::Poll];
     let mut w = QWorld::new(&cfg);
     for e in &h {
@@ -601,7 +677,13 @@ pub fn run(prop: &str) {
                 if (predicate || pool) && !thorough && (init.len() == 3 || *par == 3) {
                     continue;
                 }
-                cfgs.push(QCfg { predicate, pool, n_peers, initial: init.clone(), parallelism: *par, num_results: *k, max_report: if predicate || pool { max_report.min(if thorough { 2 } else { 1 }) } else { max_report }, half_steps: thorough, deep: false });
+                cfgs.push(QCfg { predicate, pool, n_peers, initial: init.clone(), parallelism: *par, num_results: *k, max_report: if predicate || pool { max_report.min(if thorough { 2 } else { 1 }) } else { max_report }, half_steps: thorough, deep: false, companion: false });
+                // pool worlds once more with a second lookup sharing the pool
+                if pool && init.len() <= 2 && *par <= 2 && *k <= 2 {
+                    let mut c = cfgs.last().unwrap().clone();
+                    c.companion = true;
+                    cfgs.push(c);
+                }
             }
         }
     }
@@ -610,7 +692,7 @@ pub fn run(prop: &str) {
     for (predicate, par, k) in [(true, 3usize, 1usize), (false, 3, 1)] {
         // (the constructor keeps only the k closest initial peers: the others are learnt from the
         // farthest peer's answer, which names everybody)
-        cfgs.push(QCfg { predicate, pool: false, n_peers: 7, initial: vec![6], parallelism: par, num_results: k, max_report: 0, half_steps: true, deep: true });
+        cfgs.push(QCfg { predicate, pool: false, n_peers: 7, initial: vec![6], parallelism: par, num_results: k, max_report: 0, half_steps: true, deep: true, companion: false });
     }
     let budget = mc::budget(thorough, 30.0, 0.6);
     let depth: usize = std::env::var("VERIF_DEPTH").ok().and_then(|v| v.parse().ok()).unwrap_or(if thorough { 40 } else { 6 });
